@@ -14,12 +14,9 @@ Print Assumptions C07_attr_value_wellformed.
 Theorem C07_span_attr_value_wellformed : forall v, forallb is_xml_char v = true -> attr_parse (quoteattr v) = Some v.
 Proof. exact quoteattr_wellformed. Qed.
 Print Assumptions C07_span_attr_value_wellformed.
-(* before the repair values were only quoted, not escaped: not well-formed *)
-Theorem C07_attr_unescaped_refuted : exists v, forallb is_xml_char v = true /\ attr_parse (quote_value v) = None.
-Proof. exact attr_unescaped_refuted. Qed.
-Print Assumptions C07_attr_unescaped_refuted.
 
-(* ---- text: the escaped text is character data denoting the text ------------------------------------------------ *)
+(* ---- text: the escaped text is character data (in particular without ']]>', which text_parse refuses) denoting the
+        text -------------------------------------------------------------------------------------------------- *)
 Theorem C07_escape_text_wellformed : forall s, forallb is_xml_char s = true -> text_parse (xml_escape s) = Some s.
 Proof. exact escape_text_wellformed. Qed.
 Print Assumptions C07_escape_text_wellformed.
@@ -41,7 +38,15 @@ Theorem C07_recreate_style_attrs_ok : forall content ids,
 Proof. exact recreate_style_attrs_ok. Qed.
 Print Assumptions C07_recreate_style_attrs_ok.
 
-(* a style= reference is only written for a style that exists in the head *)
+(* the same for LegacyDFXPWriter._recreate_style, which may put region= in front *)
+Theorem C07_legacy_style_attrs_ok : forall content ids rids,
+  (forall v, In v (map snd content) -> forallb is_xml_char v = true) ->
+  attrs_ok (legacy_recreate_style content ids rids) [].
+Proof. exact legacy_recreate_style_attrs_ok. Qed.
+Print Assumptions C07_legacy_style_attrs_ok.
+
+(* a style= reference is only written for a style that exists in the head (this restates the guard of
+   recreate_style; its content is the use made of it in C07_doc_consistent_partial) *)
 Theorem C07_style_refs_resolve : forall content ids v,
   In (lit "style", v) (recreate_style content ids) -> existsb (str_eqb v) ids = true.
 Proof. exact style_refs_resolve. Qed.
@@ -54,6 +59,8 @@ Print Assumptions C07_region_ids_unique.
 Theorem C07_regions_resolve : forall cs r, In r (all_refs cs) -> In r (defined cs).
 Proof. exact regions_resolve. Qed.
 Print Assumptions C07_regions_resolve.
+(* `defined` is the filter "created and referenced" (cleanup_regions), so this one is definitional: that the real
+   cleanup equals that filter is correspondence (stream R) *)
 Theorem C07_no_unreferenced_region : forall cs r, In r (defined cs) -> In r (all_refs cs).
 Proof. exact no_unreferenced_region. Qed.
 Print Assumptions C07_no_unreferenced_region.
@@ -61,12 +68,14 @@ Print Assumptions C07_no_unreferenced_region.
 (* ---- wave 2: the WHOLE writer traversal (styling section, regions, languages x captions x nodes; model/DfxpDoc.v).
         For every caption set whose style ids are distinct and differ from the region ids, the ids and references of
         the document satisfy the oracle ok_refs: ids unique, every style= (head and body) and every region= resolves
-        to exactly one definition, every region defined is referenced. -------------------------------------------- *)
-Theorem C07_doc_consistent : forall d, dom_doc d = true ->
+        to exactly one definition, every region defined is referenced.  `_partial`: DFXPWriter (and, through the
+        caption set the RegionCreator sees, SinglePositioningDFXPWriter); ids and references only - that the whole
+        document is well-formed XML is judged by two strict parsers on the real output. -------------------------- *)
+Theorem C07_doc_consistent_partial : forall d, dom_doc d = true ->
   let s := summarize d in
   ok_refs (s_ids s) (s_style_ids s) (s_region_ids s) (s_style_refs s) (s_region_refs s) = 0.
 Proof. exact doc_consistent. Qed.
-Print Assumptions C07_doc_consistent.
+Print Assumptions C07_doc_consistent_partial.
 (* the attribute dictionary of a positioned span (style attributes, region, inline positioning attributes merged in
    a dict, positioning wins) has valid, pairwise distinct names: the payload theorem covers positioned spans too *)
 Theorem C07_span_attributes_ok : forall content ids region inline,
@@ -77,6 +86,21 @@ Theorem C07_span_attributes_ok : forall content ids region inline,
 Proof. exact span_attributes_ok. Qed.
 Print Assumptions C07_span_attributes_ok.
 
+(* the same for LegacyDFXPWriter (wave 3): fixed region "bottom", region= on every <p> and on spans that ask for it,
+   for sets with distinct style ids, no written style called "bottom" and at least one caption written *)
+Theorem C07_legacy_doc_consistent_partial : forall d, dom_legacy d = true ->
+  let s := legacy_summarize d in
+  ok_refs (s_ids s) (s_style_ids s) (s_region_ids s) (s_style_refs s) (s_region_refs s) = 0.
+Proof. exact legacy_doc_consistent. Qed.
+Print Assumptions C07_legacy_doc_consistent_partial.
+(* composed (wave 3): from caption nodes - texts, style dictionaries, the region id and the inline positioning
+   attributes of a node - to an accepted payload, for both writers *)
+Theorem C07_caption_payload_wellformed : forall legacy ids nodes,
+  Forall cnode_ok nodes -> balanced (map (to_pnode ids) nodes) ->
+  exists evs, content_parse (fst (caption_payload legacy ids nodes)) = Some evs.
+Proof. exact caption_payload_wellformed. Qed.
+Print Assumptions C07_caption_payload_wellformed.
+
 (* ---- non-vacuity ------------------------------------------------------------------------------------------------ *)
 Example C07_example_attr :
   attr_out (lit "a""b<c&d") = [39] ++ lit "a""b&lt;c&amp;d" ++ [39] /\
@@ -86,15 +110,15 @@ Example C07_example_payload :
   let nodes := [PText (lit "a "); PBreak; PStyleStart [(lit "tts:color", lit "r&d")]; PStyleStart [];
                 PText (lit "x<y"); PStyleEnd; PText (lit "z"); PStyleEnd] in
   recreate_text false false nodes
-  = (lit "a<br/>" ++ [10; 32; 32; 32; 32] ++ lit "<span tts:color=""r&amp;d"">x&lt;y</span> z", false)
+  = (lit "a<br/>" ++ [10; 32; 32; 32; 32] ++ lit "<span tts:color=""r&amp;d"">x&lt;y</span>z", false)
   /\ exists evs, content_parse (fst (recreate_text false false nodes)) = Some evs.
 Proof. split; [vm_compute; reflexivity|eexists; vm_compute; reflexivity]. Qed.
 Example C07_example_document :
   let d := mkDset None [(lit "k1", [(lit "color", lit "white")]); (lit "k2", [(lit "class", lit "k1"); (lit "italics", lit "x")]);
                         (lit "empty", [])]
-             [mkDlang (Some (1, true))
+             [mkDlang (Some (1, true, true))
                 [mkDcap None (Some [(lit "class", lit "k2")])
-                   [mkDnode (mkRnode (Some (2, true)) true) [(lit "class", lit "k1"); (lit "text-align", lit "left")]];
+                   [mkDnode (mkRnode (Some (2, true, true)) true) [(lit "class", lit "k1"); (lit "text-align", lit "left")]];
                  mkDcap None None []]] in
   dom_doc d = true /\
   s_ids (summarize d) = [lit "k1"; lit "k2"; lit "r0"; lit "r1"] /\
@@ -104,8 +128,57 @@ Example C07_example_document :
   = [(lit "tts:textAlign", lit "start"); (lit "region", lit "r1"); (lit "tts:origin", lit "10% 20%")].
 Proof. vm_compute. repeat split. Qed.
 Example C07_example_regions :
-  let cs := mkRset None [mkRlang (Some (1, true)) [mkRcap None [mkRnode (Some (2, true)) false; mkRnode (Some (3, true)) true];
-                                                  mkRcap (Some (0, true)) []]] in
+  let cs := mkRset None [mkRlang (Some (1, true, true)) [mkRcap None [mkRnode (Some (2, true, true)) false; mkRnode (Some (3, true, true)) true];
+                                                  mkRcap (Some (0, true, true)) []]] in
   created cs = [-1; 0; 1; 2] /\ defined cs = [-1; 0; 2] /\
   refs cs = [(0, [(0, [2]); (-1, [])])].
 Proof. vm_compute. repeat split. Qed.
+(* quoteattr with tab / line feed / carriage return: character references, and the value comes back *)
+Example C07_example_quoteattr_whitespace :
+  quoteattr [97; 9; 98; 10; 99; 13; 100] = lit """a&#9;b&#10;c&#13;d""" /\
+  attr_parse (quoteattr [97; 9; 98; 10; 99; 13; 100]) = Some [97; 9; 98; 10; 99; 13; 100].
+Proof. vm_compute. split; reflexivity. Qed.
+(* ']]>' is refused in character data, accepted (escaped) from the writers *)
+Example C07_example_cdata_end :
+  text_parse (lit "a]]>b") = None /\ content_parse (lit "a]]>b") = None /\
+  text_parse (xml_escape (lit "a]]>b")) = Some (lit "a]]>b") /\
+  content_parse (lit "<span x=""]]>"">]]&gt;</span>") <> None.
+Proof. vm_compute. repeat split; discriminate. Qed.
+(* the hypotheses of the composed payload theorem hold for an ordinary caption: a positioned, styled span with
+   inline attributes, markup characters in values and text *)
+Example C07_example_caption_payload :
+  let nodes := [CText (lit "a & b"); CBreak;
+                CStart [(lit "color", lit "r&d"); (lit "class", lit "k1")] (Some (lit "r0")) [(lit "tts:origin", lit "10% 20%")];
+                CText (lit "x<y]]>"); CEnd] in
+  Forall cnode_ok nodes /\ balanced (map (to_pnode [lit "k1"]) nodes) /\
+  fst (caption_payload false [lit "k1"] nodes)
+  = lit "a &amp; b<br/>" ++ [10; 32; 32; 32; 32]
+    ++ lit "<span style=""k1"" tts:color=""r&amp;d"" region=""r0"" tts:origin=""10% 20%"">x&lt;y]]&gt;</span>".
+Proof.
+  split; [|split; [|vm_compute; reflexivity]].
+  - constructor; [reflexivity|]. constructor; [exact I|]. constructor; [|constructor; [reflexivity|constructor; [exact I|constructor]]].
+    cbn [cnode_ok]. split; [|split; [reflexivity|]].
+    + intros v [<-|[<-|[]]]; reflexivity.
+    + intros k v [E|[]]. inversion E; subst. split; reflexivity.
+  - cbn [map to_pnode]. apply bal_text. apply bal_break.
+    apply (bal_span _ [PText (lit "x<y]]>")] []); [apply bal_text; constructor|constructor].
+Qed.
+(* the legacy writer at document level: style chain in the head, a span asking for the fixed region *)
+Example C07_example_legacy_document :
+  let d := mkDset None [(lit "k1", [(lit "color", lit "white")]); (lit "k2", [(lit "class", lit "k1"); (lit "region", lit "bottom")])]
+             [mkDlang None [mkDcap None (Some [(lit "class", lit "k2")])
+                              [mkDnode (mkRnode None true) [(lit "region", lit "bottom"); (lit "color", lit "red")];
+                               mkDnode (mkRnode None true) [(lit "region", lit "r7")]]]] in
+  dom_legacy d = true /\
+  s_ids (legacy_summarize d) = [lit "k1"; lit "k2"; lit "bottom"] /\
+  s_style_refs (legacy_summarize d) = [lit "k1"; lit "k2"] /\
+  s_region_refs (legacy_summarize d) = [lit "bottom"; lit "bottom"].
+Proof. vm_compute. repeat split. Qed.
+(* hypotheses of the attribute-dictionary theorems, instantiated: a dictionary with markup characters in its values *)
+Example C07_example_style_attrs :
+  let content := [(lit "color", lit "r&d<"); (lit "class", lit "a&b"); (lit "region", lit "bottom"); (lit "italics", lit "")] in
+  (forall v, In v (map snd content) -> forallb is_xml_char v = true) /\
+  recreate_style content [lit "a&b"] = [(lit "style", lit "a&b"); (lit "tts:color", lit "r&d<")] /\
+  legacy_recreate_style content [lit "a&b"] [lit "bottom"]
+  = [(lit "region", lit "bottom"); (lit "style", lit "a&b"); (lit "tts:color", lit "r&d<")].
+Proof. split; [intros v [<-|[<-|[<-|[<-|[]]]]]; reflexivity|split; vm_compute; reflexivity]. Qed.
